@@ -5,6 +5,7 @@ import TantivyModel.Model.Store.VInt32
 import TantivyModel.Model.Store.JsonNumber
 import TantivyModel.Model.Store.DocPath
 import TantivyModel.Model.Store.Framing
+import TantivyModel.Model.Store.Utf8
 /-!
 Line protocol of the C09 model (doc store). Compression is `none` in every whole-file request
 (the harness feeds lz4/zstd stores block-wise after decompressing with the real codec).
@@ -167,6 +168,14 @@ def handle : List String → String
         s!"{r.2.hits}/{r.2.misses}/{r.2.entries.length}/{showBool (r.1 == plain)}"
       | none => "err"
     | _, _, _ => "bad-op"
+  | ["docdecs", h] =>
+    -- deserialization with the UTF-8 check of `read_to_string`
+    match bytesOfHex h with
+    | some bs =>
+      match deserializeDocStrict bs with
+      | some d => showDoc d
+      | none => "err"
+    | none => "bad-op"
   | ["frame", lens] =>
     -- the 4-byte header lz4 / zstd blocks start with, for a block of documents of these lengths
     match natList lens with
